@@ -9,8 +9,8 @@ Timer steps are resolved by the implementation: the harness steps the kernel and
 the model's fire-successors the real object moved to.
 """
 import hashlib, json, os, random, time
-from . import tlc
-from .store_driver import RealStore, random_history
+from . import tlc, common
+from .store_driver import RealStore, random_history, crash_event
 
 FIRE_OPS = ("fireitem", "firetimer", "firetrip", "fireact")
 
@@ -170,11 +170,28 @@ class Tour:
         """The real object left the model (drift).  Keep driving it blindly for a while so that the
         consequences of the deviation are in the trace that leg C judges."""
         try:
-            self.trace["ev"].extend(random_history(self.real, self.rng, n, prios=self.alpha["prios"],
-                                                   filters=self.alpha["filters"], tags=self.alpha["tags"],
-                                                   delays=self.alpha["delays"], nprocs=self.nprocs, max_live=4))
+            random_history(self.real, self.rng, n, prios=self.alpha["prios"], filters=self.alpha["filters"],
+                           tags=self.alpha["tags"], delays=self.alpha["delays"], nprocs=self.nprocs, max_live=4,
+                           out=self.trace["ev"])
         except Exception as ex:      # the mutated object may be beyond repair; the trace so far stands
+            if not common.from_library(ex):
+                raise
             self.trace["src"] = "tlc-graph+offmodel-crash:%s" % type(ex).__name__
+            self.trace["ev"].append(crash_event(self.real, self.trace["ev"]))
+
+    def _exec_guarded(self, i):
+        """_exec_row; an exception out of the library's own processes ends the trace with a crash event"""
+        try:
+            return self._exec_row(i)
+        except Exception as ex:
+            if not common.from_library(ex):
+                raise
+            self.trace["src"] = "tlc-graph+crash:%s" % type(ex).__name__
+            self.trace["ev"].append(crash_event(self.real, self.trace["ev"]))
+            self.drift.append({"trace": len(self.traces) - 1, "step": len(self.trace["ev"]), "what": "crash",
+                               "model": "-", "real": "%s: %s" % (type(ex).__name__, str(ex)[:120])})
+            self.crashed = True
+            return False
 
     def _fresh(self):
         self.real = RealStore(self.cfg, nprocs=self.nprocs, via_edge=self.via_edge)
@@ -274,8 +291,10 @@ class Tour:
                 cand = sorted(self.unvis[self.cur])
                 loops = [i for i in cand if self.g[self.cur]["succ"][i]["nk"] is None]
                 i = loops[0] if loops else self.rng.choice(cand)
-                if not self._exec_row(i):
-                    self._off_model()
+                if not self._exec_guarded(i):
+                    if not getattr(self, "crashed", False):
+                        self._off_model()
+                    self.crashed = False
                     self._fresh()
                 continue
             path = self._path_to_unvisited(self.cur)
@@ -288,13 +307,15 @@ class Tour:
             for (k, i) in path:
                 if k != self.cur:
                     break           # a timer step went another way than planned: plan again
-                if not self._exec_row(i):
+                if not self._exec_guarded(i):
                     ok = False
                     break
                 if len(self.trace["ev"]) >= self.max_len + 50:
                     break
             if not ok:
-                self._off_model()
+                if not getattr(self, "crashed", False):
+                    self._off_model()
+                self.crashed = False
                 self._fresh()
         self.trace["ev"].append(self.real.settle())
         self.wall = time.time() - t0
